@@ -136,8 +136,8 @@ PROFILES = {
                     texts=("Tab", "Tc"), chars=("S", "X"), bs=True, der=False, enm=False, edm=False, neutral=(), nl=False,
                     doubling="always", rate="d", reuse=False),
   # pop-on, a row addressed again by a second PAC (overwriting, gaps)
-  "popon-reuse": dict(styles=("RCL",), pacs=("P15i0", "P15i8", "P15cy"), tos=("TO1",), mids=("Mit",), texts=("Tab", "Tc"),
-                      chars=("X",), bs=True, der=False, enm=False, edm=False, neutral=(), nl=False, doubling="always",
+  "popon-reuse": dict(styles=("RCL",), pacs=("P15i0", "P15i8", "P15cy", "P14i0"), tos=(), mids=(), texts=("Tab", "Tc"),
+                      chars=("X",), bs=False, der=False, enm=False, edm=False, neutral=(), nl=False, doubling="always",
                       rate="n", reuse=True),
   "rollup": dict(styles=("RU2", "RU3", "RU4"), pacs=("P15i0", "P15i8", "P15cy", "P14i0", "P14wu", "P1i0"), tos=(), mids=("Mit", "Mgu"),
                  texts=("Tab", "Tc"), chars=("X",), bs=True, der=False, enm=False, edm=True, neutral=(), nl=False,
@@ -690,6 +690,12 @@ ROW_OPENERS = frozenset(("PAC", "CR", "RCL", "RDC", "RU2", "RU3", "RU4", "EOC", 
 def judge(rend, view, refs, anticipate_rows=False):
   """Returns a list of findings [(kind, phase, info)] for the document view against the reference run `refs`
   (refs[g + 1] = state after global word g).  All times in frames.
+
+  The displayed screens D(t) at the probe times must be matched, in order, by reference screens R_g with
+  lo(t) <= g <= hi(t), g non-decreasing.  A greedy scan (smallest admissible g) decides whether such a matching
+  exists.  If not, the disagreement is *classified* along a minimum-cost monotone alignment (dynamic programme:
+  equal 0, style or rows 1, blanks 3, text 6), so that one wrong row is not reported as a cascade.
+
   anticipate_rows (naming a departure only): a row may be shown in the state that words of *later* lines give it,
   up to the next word that opens a row or a caption."""
   findings = []
@@ -724,14 +730,13 @@ def judge(rend, view, refs, anticipate_rows=False):
         probes.add(k + j)
   probes.add(max(probes) + 30)
   probes.add(line_k[0] - 1)
-  prev_g = -1
+  probes = sorted(t for t in probes if t >= 0)
+  # windows
+  win = []
   lo = -1
   li = -1
   nlines = len(line_k)
-  seen = set()
-  for t in sorted(probes):
-    if t < 0:
-      continue
+  for t in probes:
     # hi: last word of the latest line started at or before t; lo: last word whose slot ended a frame or more before t
     while li + 1 < nlines and line_k[li + 1] <= t:
       li += 1
@@ -741,43 +746,79 @@ def judge(rend, view, refs, anticipate_rows=False):
         hi += 1
     while lo + 1 < nw and slot_end[lo + 1] + 1 <= t:
       lo += 1
-    lo_t = min(lo, hi)
-    start = max(prev_g, lo_t)
-    dscr = view.screen(t)
-    best = None
-    found = None
-    last_obj = None
-    for g in range(start, hi + 1):
-      rscr, mode, depth, _a = refs[g + 1]
-      if rscr is last_obj:
-        continue                      # same screen object as the previous candidate: same verdict
-      last_obj = rscr
-      res, abs_ok = compare(dscr, rscr, mode == "roll")
-      if res is None:
-        found = (g, abs_ok, mode, depth)
-        break
-      if best is None or SEVERITY[res] <= SEVERITY[best[0]]:
-        best = (res, g)
-    quiet = lo_t == hi
-    if found is None:
-      kind, g = best
-      phase = "stable" if quiet else "transit"
-      if (kind, phase) not in seen:
-        seen.add((kind, phase))
-        findings.append((kind, phase,
-                         dict(t=t, line=li, word_range=[start, hi], observed=show(dscr), expected=show(refs[g + 1][0]),
-                              ref_mode=refs[g + 1][1], g=g)))
-      prev_g = start
-      continue
-    g, abs_ok, mode, depth = found
+    win.append((min(lo, hi), hi, li))
+  screens = [view.screen(t) for t in probes]
+
+  memo = {}
+
+  def cmp(j, g):
+    rscr, mode, _depth, _a = refs[g + 1]
+    key = (j, id(rscr), mode == "roll")
+    if key not in memo:
+      memo[key] = compare(screens[j], rscr, mode == "roll")
+    return memo[key]
+
+  # greedy: does a monotone matching exist?
+  path = []
+  prev_g = -1
+  ok = True
+  for j, (lo_t, hi, _li) in enumerate(win):
+    g = max(prev_g, lo_t)
+    while g <= hi and cmp(j, g)[0] is not None:
+      g += 1
+    if g > hi:
+      ok = False
+      break
+    path.append(g)
     prev_g = g
+  if not ok:
+    # minimum-cost monotone alignment
+    INFTY = 10 ** 9
+    cost_of = {None: 0, "style": 1, "rows": 1, "gap": 3, "text": 6}
+    width = nw + 1                     # g = -1 .. nw - 1  ->  index g + 1
+    prev = [0] * width
+    back = []
+    for j, (lo_t, hi, _li) in enumerate(win):
+      cur = [INFTY] * width
+      arg = [0] * width
+      best, besti = INFTY, 0
+      for gi in range(width):
+        if prev[gi] <= best:           # prefix minimum, the latest index among equals
+          best, besti = prev[gi], gi
+        g = gi - 1
+        if lo_t <= g <= hi and best < INFTY:
+          cur[gi] = best + cost_of[cmp(j, g)[0]]
+          arg[gi] = besti
+      back.append(arg)
+      prev = cur
+    gi = max(range(width), key=lambda i: (-prev[i], i))
+    path = [0] * len(win)
+    for j in range(len(win) - 1, -1, -1):
+      path[j] = gi - 1
+      gi = back[j][gi]
+  seen = set()
+  for j, g in enumerate(path):
+    lo_t, hi, li = win[j]
+    # window: while every admissible reference state is roll-up, never more rows than the largest admissible depth
+    cand = refs[lo_t + 1:hi + 2]
+    if "window" not in seen and all(c[1] == "roll" for c in cand) and len(screens[j]) > max(c[2] for c in cand):
+      seen.add("window")
+      findings.append(("window", "stable" if lo_t == hi else "transit",
+                       dict(t=probes[j], observed=show(screens[j]), depth=max(c[2] for c in cand), g=g)))
+    res, abs_ok = cmp(j, g)
+    quiet = lo_t == hi
+    rscr, mode, depth, _a = refs[g + 1]
+    if res is not None:
+      phase = "stable" if quiet else "transit"
+      if (res, phase) not in seen:
+        seen.add((res, phase))
+        findings.append((res, phase, dict(t=probes[j], line=li, word_range=[lo_t, hi], observed=show(screens[j]),
+                                          expected=show(rscr), ref_mode=mode, g=g)))
+      continue
     if mode == "roll":
-      if len(dscr) > depth and "window" not in seen:
-        seen.add("window")
-        findings.append(("window", "stable" if quiet else "transit", dict(t=t, observed=show(dscr), depth=depth, g=g)))
       if not abs_ok and quiet and "baserow" not in seen:
         seen.add("baserow")
-        findings.append(("baserow", "stable", dict(t=t, observed=show(dscr), expected=show(refs[g + 1][0]), g=g)))
+        findings.append(("baserow", "stable", dict(t=probes[j], observed=show(screens[j]), expected=show(rscr), g=g)))
   return findings
 
 
@@ -923,7 +964,7 @@ def _culprit(history, prof, dev=frozenset(), kind=None):
   return len(history) - 1
 
 
-def _features(history, idx):
+def _features(history, idx, dev=frozenset()):
   """context of the culprit token: protocol state, class of the token, kind of the last PAC, and the state of the
   cursor's row in the target memory (empty / append: text ends at the cursor / gap: text ends before the cursor /
   over: there is text at or after the cursor)"""
@@ -932,12 +973,25 @@ def _features(history, idx):
   for t in history[:idx + 1]:
     if tok_kind(t) == "PAC":
       last_pac = "indent" if base_tok(t)[-2] == "i" else "attr"
+  d = R6.Decoder(frozenset(x for x in dev if x != DEV_ROW_ANTICIPATED))
   for t in history[:idx]:
     p.step(t)
+    if not base_tok(t).startswith("NL"):
+      for (b1, b2) in tok_words(t):
+        d.feed((b1 << 8) | b2)
   cul = history[idx]
   ck = tok_kind(cul)
-  tokclass = "char" if ck in ("TEXT", "S", "X") else ck
-  d = p.dec
+  tokclass = {"Tab": "char", "Tc": "char", "Td_": "char+blank", "T_e": "blank+char", "S": "char", "X": "char"}.get(base_tok(cul), ck)
+  erased = "n"                       # has the display been erased (EDM) since this caption style was entered?
+  cur_style = None
+  for t in history[:idx]:
+    b = base_tok(t)
+    if b in STYLE_START:
+      if STYLE_START[b] != cur_style:
+        erased = "n"
+      cur_style = STYLE_START[b]
+    elif b == "EDM":
+      erased = "y"
   rowstate = "none"
   if d.mode is not None:
     mem = d.nm if d.mode == "pop" else d.dm
@@ -957,7 +1011,7 @@ def _features(history, idx):
       rowstate = "append"
     else:
       rowstate = "gap"
-  return p, ck, tokclass, last_pac, rowstate
+  return p, ck, tokclass, erased, rowstate
 
 
 def convention_breaks(rend, view, refs):
@@ -1028,7 +1082,7 @@ def _attribute(history, prof, rend, view, findings, out):
   kind, phase, info = next((f for f in main if f[1] == "stable"), main[0])
   idx = _culprit(history, prof, dev, kind)
   culprit = history[idx]
-  proto, ck, tokclass, last_pac, rowstate = _features(history, idx)
+  proto, ck, tokclass, erased, rowstate = _features(history, idx, dev)
   clause = {"text": f"C08.{phase}", "gap": "C08.gap", "rows": "C08.rows", "style": "C08.style"}[kind]
   if kind in ("text", "gap"):
     if ck == "BS":
@@ -1041,7 +1095,9 @@ def _attribute(history, prof, rend, view, findings, out):
       alt = history[:idx] + [base_tok(culprit)] + history[idx + 1:]
       if not failing_kinds(alt, prof, dev):
         clause = "C08.dup"
-  disc = f"kind={kind},mode={proto.style},tok={tokclass},row={rowstate}"
+  if kind != "style" and tokclass in ("char+blank", "blank+char"):
+    tokclass = "char"                 # where the blank of a pair sits only matters to the pen (paint-on word splitting)
+  disc = f"kind={kind},mode={proto.style},tok={tokclass},row={rowstate},erased={erased}"
   out.violations.append((clause, disc, info.get("observed"), info.get("expected"),
                          f"{phase} at frame {info['t']} (line {info['line']}), reference words {info['word_range']}; "
                          f"culprit token #{idx} {culprit}" + (f"; judged against the reference with {'+'.join(sub)}" if sub else "")))
